@@ -333,7 +333,9 @@ func (l *Lexer) consumeEscape() bool {
 				break
 			}
 		}
-		l.consumeWhitespace()
+		if !l.consumeNewline() { // one whitespace terminates the escape; \r\n counts as one
+			l.consumeWhitespace()
+		}
 		return true
 	} else {
 		c := l.r.Peek(0)
